@@ -179,6 +179,9 @@ pub fn gen_async_case(rng: &mut Rng, conflict_free: bool) -> Vec<String> {
     let mut cfg = Config { render: false, mode: "async".into(), ..Config::default() };
     cfg.sched = match rng.below(4) { 0 => "fifo".into(), 1 => "lifo".into(), _ => format!("rand:{}", rng.below(1 << 30)) };
     cfg.gate_fs = rng.chance(1, 3);
+    // 1/5: a provider whose sort_candidates reads the candidates' dependencies through the SolverCache (as conda-style
+    // providers do): its queries overlap with the solver's own outstanding requests (oracles only, not modelled)
+    cfg.sort_peeks = rng.chance(1, 5);
     lines.push(cfg.to_line());
     lines
 }
